@@ -371,5 +371,5 @@ def validate_evidence(ev):
         raise AnalysisError("evidence explanation empty")
     if not isinstance(cov.get("samples"), list) or not cov["samples"]:
         raise AnalysisError("evidence samples empty")
-    if cov["evaluations"] < 1 or cov["distinct_nontrivial"] < 2:
+    if (cov["evaluations"] < 1 or cov["distinct_nontrivial"] < 2) and not ev.get("violations"):
         raise AnalysisError("evidence counts too small: a rule matched (almost) nothing")
